@@ -1,22 +1,29 @@
 #!/bin/bash
-# mutcheck.sh <mutation id> <property ids...>: confirm a seeded change in its scratch worktree, then
-# run the given checks against /repo with the patch applied, and undo it.
+# mutcheck.sh <mutation id> <property ids...>: confirm a seeded change in its scratch worktree
+# (demo fails with / passes without), then run the given checks against a scratch worktree of
+# /repo with the patch applied (VERIF_REPO), never against /repo itself.
 id=$1; shift
 wt=/tmp/mut/$id; out=/tmp/mut/$id.out
+[ -d $out ] || out=/verif/seeded/$id
 export GOFLAGS= GOPROXY=off GOSUMDB=off
-demo=$(cd $wt && git status --short | grep 'zz_mut_demo_test.go' | awk '{print $2}' | head -1)
-ddir=$(dirname "$wt/$demo")
-echo "== demo: $demo"
-(cd $ddir && timeout 300 go test -vet=off -count=1 -run 'TestMutDemo' . 2>&1 | tail -3) > /tmp/mut/$id.with.log
-echo "with change: $(tail -1 /tmp/mut/$id.with.log)"
-# (git stash is shared by all worktrees of one repository: use a reverse patch instead)
-(cd $wt && git diff > /tmp/mut/$id.cur.diff && git apply -R /tmp/mut/$id.cur.diff && cd $ddir && timeout 300 go test -vet=off -count=1 -run 'TestMutDemo' . 2>&1 | tail -3; cd $wt && git apply /tmp/mut/$id.cur.diff) > /tmp/mut/$id.without.log
-echo "without change: $(tail -1 /tmp/mut/$id.without.log)"
-echo "== applying to /repo"
-git -C /repo apply $out/patch.diff || { echo "PATCH DOES NOT APPLY"; exit 3; }
+if [ -d $wt ]; then
+  demo=$(cd $wt && git status --short | grep 'zz_mut_demo_test.go' | awk '{print $2}' | head -1)
+  ddir=$(dirname "$wt/$demo")
+  echo "== demo: $demo"
+  (cd $ddir && timeout 300 go test -vet=off -count=1 -run 'TestMutDemo' . 2>&1 | tail -3) > /tmp/mut/$id.with.log
+  echo "with change: $(tail -1 /tmp/mut/$id.with.log)"
+  # (git stash is shared by all worktrees of one repository: use a reverse patch instead)
+  (cd $wt && git diff > /tmp/mut/$id.cur.diff && git apply -R /tmp/mut/$id.cur.diff && cd $ddir && timeout 300 go test -vet=off -count=1 -run 'TestMutDemo' . 2>&1 | tail -3; cd $wt && git apply /tmp/mut/$id.cur.diff) > /tmp/mut/$id.without.log
+  echo "without change: $(tail -1 /tmp/mut/$id.without.log)"
+fi
+mr=/var/tmp/mutrepo-$id
+git -C /repo worktree remove --force $mr 2>/dev/null
+git -C /repo worktree add -q --detach $mr HEAD || exit 3
+echo "== applying to scratch worktree $mr"
+git -C $mr apply $out/patch.diff || { echo "PATCH DOES NOT APPLY"; git -C /repo worktree remove --force $mr; exit 3; }
 for p in "$@"; do
-  /verif/check $p ${TIER:-quick} 2>&1 | grep -v '^vh\|^symro\|^KNOWN' | cut -c1-400
+  VERIF_REPO=$mr /verif/check $p ${TIER:-quick} 2>&1 | grep -v '^vh\|^symro\|^KNOWN' | cut -c1-400
   echo "exit($p)=${PIPESTATUS[0]}"
 done
-git -C /repo checkout -- .
-git -C /repo status --short | head -3
+git -C /repo worktree remove --force $mr
+git -C /repo worktree prune
